@@ -4,6 +4,7 @@
    trivia); declarations and statements are decided by the search (see tools/props/C01.py). *)
 From Coq Require Import List NArith Bool String Arith.
 From Verif Require Import Base.Res Gen.GenTokens Gen.GenPrec Model.Lexer Model.ExprParser Proofs.ExprParserProofs Proofs.ExprInstance.
+From Verif Require Model.StParser Model.StInstance Proofs.StExprProofs Proofs.StStmtProofs Proofs.StInstanceProofs.
 Import ListNotations.
 Local Open Scope string_scope.
 
@@ -47,3 +48,34 @@ Proof. exact parse_expr_spelled. Qed.
 Theorem C01_operator_levels : forall k lv o t, In (k, lv, o) op_kinds -> t_kind t = k ->
   tok_bop t = Some (lv, o) /\ tok_triv t = false /\ tok_noafter t = false.
 Proof. exact op_kind_ok. Qed.
+
+(* Statements (B.3.2) and expressions with calls (B.3.1), model of Model/StParser.v on the real tokens: every well-formed
+   spelling of a statement list -- assignments, function-block calls with positional / named / output parameters,
+   IF / ELSIF / ELSE, FOR with or without BY, WHILE, REPEAT, EXIT, RETURN, nested to any depth, expressions over all
+   operators with calls, signed constants and parentheses, any trivia at any slot -- is parsed to exactly the list it
+   denotes, leaving exactly the rest.  The fuel bound is the size of the spelled tree. *)
+Theorem C01_statements_faithful : forall (l : StStmtProofs.sl token) rest L,
+  StStmtProofs.wf_l token StInstance.tok_class StInstance.op_level l ->
+  StStmtProofs.closer_next token StInstance.tok_class rest -> StStmtProofs.size_l token l <= L ->
+  StParser.plist token StInstance.tok_class t_text StInstance.tok_num StInstance.op_level L (StStmtProofs.flat_l token l ++ rest)
+  = Ok (StStmtProofs.erase_l token t_text StInstance.tok_num l, rest).
+Proof. exact StInstanceProofs.plist_real. Qed.
+
+(* end to end for the entry point that the correspondence check compares with parse_program: the body of
+   FUNCTION_BLOCK name ... END_FUNCTION_BLOCK, with the fuel the entry point supplies *)
+Theorem C01_function_block_body : forall w00 fb w0 nm w1 (l : StStmtProofs.sl token) w2 en w3,
+  StExprProofs.all_triv token StInstance.tok_class w00 -> t_kind fb = KFunctionBlock ->
+  StExprProofs.all_triv token StInstance.tok_class w0 -> t_kind nm = KIdentifier ->
+  StExprProofs.all_triv token StInstance.tok_class w1 ->
+  StStmtProofs.wf_l token StInstance.tok_class StInstance.op_level l ->
+  StExprProofs.all_triv token StInstance.tok_class w2 -> t_kind en = KEndFunctionBlock ->
+  StExprProofs.all_triv token StInstance.tok_class w3 ->
+  StParser.in_scope token StInstance.tok_class (StStmtProofs.flat_l token l ++ w2 ++ en :: w3) = true ->
+  StInstance.parse_fb_tokens (w00 ++ fb :: w0 ++ nm :: w1 ++ StStmtProofs.flat_l token l ++ w2 ++ en :: w3)
+  = StInstance.OParsed (StStmtProofs.erase_l token t_text StInstance.tok_num l).
+Proof. exact StInstanceProofs.parse_fb_spelled. Qed.
+
+Theorem C01_statement_operator_levels :
+  map StInstance.op_level [BOr; BXor; BAnd; BEq; BNe; BLt; BGt; BLe; BGe; BAdd; BSub; BMul; BDiv; BMod; BPow] =
+  [0; 1; 2; 3; 3; 4; 4; 4; 4; 5; 5; 6; 6; 6; 7].
+Proof. exact StInstanceProofs.op_levels_table. Qed.
